@@ -80,6 +80,12 @@ def record_ctor_family(F):
     return c_
 
 
+# the value a validation switch has when its validation is ON: False for `skip_*` switches (the tree's form), True if the switches are
+# written the other way round (`check_*`). Decided in run() by what the public constructors all_validations / no_validations and the
+# documented builder default produce, by majority, so that one wrong switch is reported as such
+VW = [False]
+
+
 def switches(F):
     """the validation switches by shape: the fields of the crate's all-bool struct (three or more flags) that a Format implementor keeps
     in one of its fields -> (flag names, {holder adt: name of the field holding the switch struct})"""
@@ -109,7 +115,16 @@ def run(ctx):
         VF = sorted(set(holders.values()))[0] if holders else "validation"
         ev = AbsEval(F)
         da = F.crates[CR]["debug_assertions"]
-        want = {"all_validations": False, "no_validations": True}
+        votes = []
+        for fn_, validating in (("all_validations", True), ("no_validations", False), ("builder", da)):
+            b_ = F.body("metrique_writer_format_emf::emf::Emf::" + fn_)
+            for f in SW if b_ is not None else ():
+                got = ev.ret_field(b_, (VF, f)) if fn_ != "builder" else ev._local(b_, 0, (VF, f), [], 0, frozenset())
+                if got in ({True}, {False}):
+                    votes.append(next(iter(got)) == validating)
+        VW[0] = sum(votes) * 2 > len(votes)
+        vw = VW[0]
+        want = {"all_validations": vw, "no_validations": not vw}
         n = 0
         for fn, val in want.items():
             b = F.body("metrique_writer_format_emf::emf::Emf::" + fn)
@@ -133,7 +148,7 @@ def run(ctx):
         if bb_ is not None and bu is not None:
             for f in SW:
                 got = ev._local(bu, 0, (VF, f), [], 0, frozenset())
-                ctx.check(got == {not da}, "R08.1", "%s#default-%s@debug-assertions-%s" % (fnkey(bu), f, "on" if da else "off"), loc(bu),
+                ctx.check(got == {da == vw}, "R08.1", "%s#default-%s@debug-assertions-%s" % (fnkey(bu), f, "on" if da else "off"), loc(bu),
                           "builder default for %s is %s, documented: validate iff debug assertions are enabled" % (f, sorted(map(str, got))))
             # build() preserves the builder's validation
             for f in SW:
@@ -144,10 +159,11 @@ def run(ctx):
         sk = F.body("metrique_writer_format_emf::emf::EmfBuilder::skip_all_validations")
         if sk is not None:
             for f in SW:
-                on = ev._local(sk, 0, (VF, f), [lambda fs: {False}, lambda fs: {True}], 0, frozenset())
-                off = ev._local(sk, 0, (VF, f), [lambda fs: {True}, lambda fs: {False}], 0, frozenset())
-                keep = ev._local(sk, 0, (VF, f), [lambda fs: {False}, lambda fs: {False}], 0, frozenset())
-                ctx.check(on == {True} and off == {True} and keep == {False}, "R08.1", "%s#only-turns-skipping-on-%s@%s" % (fnkey(sk), f, prof), loc(sk),
+                # (switch value of the builder, `skip` parameter) -> switch value afterwards, in terms of `skipping` = (value != vw)
+                on = ev._local(sk, 0, (VF, f), [lambda fs: {vw}, lambda fs: {True}], 0, frozenset())
+                off = ev._local(sk, 0, (VF, f), [lambda fs: {not vw}, lambda fs: {False}], 0, frozenset())
+                keep = ev._local(sk, 0, (VF, f), [lambda fs: {vw}, lambda fs: {False}], 0, frozenset())
+                ctx.check(on == {not vw} and off == {not vw} and keep == {vw}, "R08.1", "%s#only-turns-skipping-on-%s@%s" % (fnkey(sk), f, prof), loc(sk),
                           "skip_all_validations(%s): true->%s, keeps-true->%s, false-keeps-false->%s" % (f, on, off, keep))
 
     F = ctx.facts("dbg")
@@ -216,7 +232,7 @@ def run(ctx):
             if any(x[0] == "op" and x[1] not in ("Not",) for x in o):
                 # combined conditions are lowered to nested switches; a computed combination is not understood
                 pass
-            negated = any(x == ("op", "Not") for x in o)
+            negated = any(x == ("op", "Not") for x in o) != VW[0]
             tg = {v: tb for v, tb in t["targets"]}
             zero_t, other_t = tg.get(0), t["otherwise"]
             if zero_t is None:
@@ -329,7 +345,7 @@ def run(ctx):
             sw = [x for x in o if x[0] == "arg" and x[2] and x[2][-1] in SW]
             if not sw or any(x[0] == "op" and x[1] != "Not" for x in o):
                 continue
-            negated = any(x == ("op", "Not") for x in o)
+            negated = any(x == ("op", "Not") for x in o) != VW[0]
             tg = {v: tb for v, tb in t["targets"]}
             if tg.get(0) is None:
                 continue
@@ -481,7 +497,7 @@ def gate_helpers(F):
             sw = [x for x in o if x[0] == "arg" and x[2] and x[2][-1] in SW]
             if not sw or any(x[0] == "op" and x[1] != "Not" for x in o):
                 continue
-            negated = any(x == ("op", "Not") for x in o)
+            negated = any(x == ("op", "Not") for x in o) != VW[0]
             tg = {v: tb for v, tb in t["targets"]}
             if tg.get(0) is None:
                 continue
